@@ -62,4 +62,33 @@ theorem read_path_as_modelled :
   refine ⟨?_, ?_, ?_, ?_, ?_⟩ <;> rfl
 
 
+/-- today's Conn.read (Peek + Discard: the byte source of every header), joinReader.Read / JoinMessages and decompressNoContextTakeover are the modelled ones -/
+theorem join_and_source_as_modelled :
+    Gen.stmts_connRead =
+      ["p, err := c.br.Peek(n)",
+        "if err == io.EOF { err = errUnexpectedEOF }",
+        "_, _ = c.br.Discard(len(p))",
+        "return p, err"] ∧
+    Gen.stmts_joinRead =
+      ["if r.r == nil { var err error _, r.r, err = r.c.NextReader() if err != nil { return 0, err } if r.term != \"\" { r.r = io.MultiReader(r.r, strings.NewReader(r.term)) } }",
+        "n, err := r.r.Read(p)",
+        "if err == io.EOF { err = nil r.r = nil }",
+        "return n, err"] ∧
+    Gen.stmts_JoinMessages =
+      ["return &joinReader{c: c, term: term}"] ∧
+    Gen.stmts_decompressNCT =
+      ["const tail = \"\\x00\\x00\\xff\\xff\" + \"\\x01\\x00\\x00\\xff\\xff\"",
+        "fr, _ := flateReaderPool.Get().(io.ReadCloser)",
+        "mr := io.MultiReader(r, strings.NewReader(tail))",
+        "if err := fr.(flate.Resetter).Reset(mr, nil); err != nil { fr = flate.NewReader(mr) }",
+        "return &flateReadWrapper{fr: fr, src: mr}"] ∧
+    Gen.stmts_ReadJSON =
+      ["_, r, err := c.NextReader()",
+        "if err != nil { return err }",
+        "err = json.NewDecoder(r).Decode(v)",
+        "if err == io.EOF { err = io.ErrUnexpectedEOF }",
+        "return err"] := by
+  refine ⟨?_, ?_, ?_, ?_, ?_⟩ <;> rfl
+
+
 end WS.Props.C03Tie
